@@ -1,16 +1,17 @@
-\* 2 subscribers, 3 paths in 2 clusters, change table of 2, min 1 s / max 4 s, up to 2 changes and 1 failed report
+\* 2 subscribers, 2 paths in 2 clusters, change table of 1, min 1 s / max 4 s, up to 2 changes and 1 failed report
 SPECIFICATION Spec
 CONSTANTS
   Subs = {1, 2}
-  Paths = {1, 2, 3}
+  Paths = {1, 3}
   ClusterOf <- ClusterOfDef
-  CAP = 2
+  CAP = 1
   MinInt = 1
   MaxInt = 4
   Variant = "fixed"
   MaxChanges = 2
-  MaxT = 3
-  MaxOps = 12
+  MaxT = 2
+  MaxOps = 11
+  MaxEvents = 1
   MaxFails = 1
 VIEW view
 INVARIANTS Refines NoLostUpdate
